@@ -99,7 +99,7 @@ def sig_form(case, obs, shown_alg):
         return "empty"
     if shown_alg == "dsa" and sent and not P.der_ok(sent):
         return "badder"
-    if form in ("bitflip", "short", "long"):
+    if form in ("bitflip", "short", "long") or form.startswith("deg:"):
         return "garbage"
     label, sem = effective(case, obs)
     msg = case.get("msg", "this")
@@ -195,6 +195,9 @@ def plan_signature_cases(thorough):
                 base["kx"] = kx
             for c in base_classes(site, ver, alg):
                 cases.append(dict(base, **c))
+            # degenerate / algebraically special signatures for the public parameters of the presented key
+            for name in P.degenerate_forms(P.key_of(cred)):
+                cases.append(dict(base, form="deg:" + name, cls="degenerate"))
             if ver >= 3:
                 for label, salg in RELABEL[alg]:
                     if ver == 4 and alg == "dsa":
@@ -248,6 +251,10 @@ def plan_dc_cases(thorough):
                 cases.append(dict(b, dcform=f))
             for f in ("bitflip", "empty", "certkey"):
                 cases.append(dict(b, cvform=f))
+            for name in P.degenerate_forms(P.key_of(cred)):
+                cases.append(dict(b, dcform="deg:" + name, cls="degenerate"))
+            for name in P.degenerate_forms(P.key_of(k)):
+                cases.append(dict(b, cvform="deg:" + name, cls="degenerate"))
             own = {"dc_rsapss": (8, 9), "dc_ed25519": (8, 7), "dc_p256": (4, 3), "dc_p384": (5, 3)}[k]
             other = [x for x in ((8, 7), (4, 3), (8, 9), (5, 3)) if x != own]
             cases.append(dict(b, offer_dc=[list(other[0])], cls="dc-unoffered"))
